@@ -238,6 +238,9 @@ class Sweep:
         if 'badopts' in ops:
             from contracts import b_edit_ext
             b_edit_ext.badopt_steps(self, paths, quick, rnd)
+        if 'refusals' in ops:
+            from contracts import b_edit_ext
+            b_edit_ext.refusal_steps(self, paths, quick, rnd)
         if 'slice' in ops:
             self.sweep_slices(root, quick, rnd)
         if 'seq' in ops:
@@ -393,7 +396,7 @@ def replay(payload):
     if name not in progs:
         return {'reproduced': False, 'note': 'program not in corpus'}
     prop = rep['key'].split('.')[0]
-    ops = ['self', 'remove', 'donor', 'slice', 'copy', 'accessors', 'views', 'optional', 'move', 'pars', 'badopts', 'seq']
+    ops = ['self', 'remove', 'donor', 'slice', 'copy', 'accessors', 'views', 'optional', 'move', 'pars', 'badopts', 'refusals', 'seq']
     r = work(name, progs[name], {'props': [prop], 'ops': ops, 'tier': 'thorough', 'seed': rep.get('seed', 0)})
     hit = [f for f in r['failures'] if f['key'] == rep['key']]
     return {'reproduced': bool(hit), 'failure': hit[:1]}
